@@ -779,3 +779,12 @@ package template
 //@   requires !isnil(e.actionNodeEdits)
 //@   ensures recorded: haskeym(e.actionNodeEdits, n)
 //@   ensures others: forallref(p, p != n ==> haskeym(e.actionNodeEdits, p) == old(haskeym(e.actionNodeEdits, p)))
+
+//@ func (e *escaper) escapeBranch(c context, n *parse.BranchNode, nodeName string) (r context)
+//@   serves C05 C01
+//@   option embedded nameSpace.esc
+//@   option allocates
+//@   option modifies @ANALYSISMAPS @DERIVEDTREES
+//@   requires !isnil(n)
+//@   ensures reentry: nodeName == "range" && r.state != stateError ==> nudgest(namedlike(c, "esclist", c, n.List).state) == nudgest(namedlike(c, "esclist", namedlike(c, "esclist", c, n.List), n.List).state) && nudgedl(namedlike(c, "esclist", c, n.List).state, namedlike(c, "esclist", c, n.List).delim) == nudgedl(namedlike(c, "esclist", namedlike(c, "esclist", c, n.List), n.List).state, namedlike(c, "esclist", namedlike(c, "esclist", c, n.List), n.List).delim)
+//@   ensures branches: r.state != stateError ==> nudgest(namedlike(c, "esclist", c, n.List).state) == nudgest(namedlike(c, "esclist", c, n.ElseList).state) && nudgedl(namedlike(c, "esclist", c, n.List).state, namedlike(c, "esclist", c, n.List).delim) == nudgedl(namedlike(c, "esclist", c, n.ElseList).state, namedlike(c, "esclist", c, n.ElseList).delim)
